@@ -42,7 +42,9 @@ CHECKS = {
         "criterion properties, h over six decades incl. all h>1) driven "
         "through NNPS update + Integrator.compute_time_step and "
         "Solver._compute_timestep over 1-3 rounds; result compared with a "
-        "numpy evaluation of the documented formula (relative 1e-12)."),
+        "numpy evaluation of the documented formula (relative 1e-12); arrays "
+        "may be empty in some rounds and filled in others on the same "
+        "Integrator object."),
   note=("hmin over all particles or over real particles both accepted; "
         "CPU arrays only (no GPU path)."),
   technique="property-based testing (Hypothesis) against a reference evaluation of the documented formula"),
@@ -56,10 +58,11 @@ CHECKS = {
         "callback logs - with a reference interpreter written from the "
         "documentation, over generated data sets with ghost particles and "
         "empty source arrays."),
-  note=("Serial (no OpenMP); neighbour lists from LinkedListNNPS("
+  note=("Serial and OpenMP shards; neighbour lists from LinkedListNNPS("
         "sort_gids=True) on both sides; a failing JIT compile of a "
-        "documented tree is a violation; periodic ghosts not exercised "
-        "here (C04/C07)."),
+        "documented tree is a violation; forced shards run the programs in "
+        "periodic, mirror and periodic+mirror boxes and contain a group "
+        "with two initialize_pair equations listing different sources."),
   technique="differential property-based testing: generated programs x generated data, compiled code vs. reference interpreter"),
  'C06': dict(
   text=("Model-based sequences (up to 30/60 operations from 24 kinds of the "
@@ -86,8 +89,11 @@ CHECKS = {
   note=("Classes whose Python meaning is undefined on the generated inputs "
         "are listed (coverage.skipped_classes), not passed; quick covers "
         "about 120 classes per seed (rotating), thorough all of them x 3 "
-        "kernels; serial execution; generated user classes (G-B) are "
-        "covered through the C03/C04/C13 tracer and helper equations only."),
+        "kernels; classes with boolean / zero-float constructor options are "
+        "also instantiated with the other values (#alt); every shard first "
+        "builds an evaluator with the same kernel class in another "
+        "dimension in the same process; generated user classes (G-B, "
+        "checks/c02_gen.py) incl. OpenMP shards."),
   technique="differential property-based testing: compiled code vs. reference interpreter over generated data, classes enumerated from the package"),
  'C11': dict(
   text=("Generated lists of particle arrays (five C types, strides 1-4, "
@@ -231,7 +237,8 @@ CHECKS = {
         "compared with a brute-force oracle with an 8-eps band; cache on = "
         "off, sorted output, history = fresh construction. Every case runs "
         "in a forked child so that crashes and hangs are ordinary, "
-        "shrinkable failures."),
+        "shrinkable failures. Stratified shards pin per-particle h for every "
+        "algorithm and each tree-builder variant (serial / parallel)."),
   note=("Two open findings are excluded by construction and counted "
         "(StratifiedSFC across different arrays; StratifiedHash with h over "
         "several decades); grid capacity limits of the classes are "
